@@ -27,6 +27,7 @@ func main() { Main("C11", checkC11, GenBufferConsts, sysgen.Gen) }
 type Spec struct {
 	Sink      string  `json:"sink"`      // direct3 tri stl 3mf | direct2 dxf svg
 	Producers [][]int `json:"producers"` // sizes of the Writes of each producer goroutine
+	Reuse     string  `json:"reuse,omitempty"` // "" fresh slice per Write | refill | poison | windows: the producer owns and re-uses the slice it hands to Write (scripts.go)
 }
 
 // OpSpec is a raw operation sequence on the real buffer: n >= 0 Write of n items, -1 Close.
@@ -45,9 +46,10 @@ type GeoSpec struct {
 }
 
 type corpusC11 struct {
-	Specs []Spec    `json:"specs"`
-	Ops   []OpSpec  `json:"ops"`
-	Geo   []GeoSpec `json:"geo"`
+	Specs []Spec     `json:"specs"`
+	Ops   []OpSpec   `json:"ops"`
+	Geo   []GeoSpec  `json:"geo"`
+	Hist  []HistSpec `json:"hist"`
 }
 
 type replayFile struct {
@@ -110,7 +112,11 @@ func specKey(sp Spec) string {
 	for i, p := range sp.Producers {
 		ps[i] = sizesKey(p)
 	}
-	return fmt.Sprintf("deliver sink=%s producers=%d [%s]", sp.Sink, len(sp.Producers), strings.Join(ps, " | "))
+	reuse := ""
+	if sp.Reuse != "" {
+		reuse = " slice=" + sp.Reuse
+	}
+	return fmt.Sprintf("deliver sink=%s%s producers=%d [%s]", sp.Sink, reuse, len(sp.Producers), strings.Join(ps, " | "))
 }
 
 // deliver runs one spec through the real code: delivered ids, batch lengths (direct sinks), count field (stl)
@@ -123,7 +129,13 @@ func deliver(sp Spec, dir string) (ids []int, batches []int, hasBatches bool, co
 	var err error
 	switch sp.Sink {
 	case "direct3":
-		bs, bad := pipe.Direct3(nil, &pipe.Script3{Producers: sp.Producers})
+		var bs [][]int
+		var bad int
+		if sp.Reuse == "" {
+			bs, bad = pipe.Direct3(nil, render3(sp))
+		} else { // the consumer keeps the batches and reads them when everything is over
+			bs, bad = directLate3(render3(sp))
+		}
 		for _, b := range bs {
 			batches = append(batches, len(b))
 			ids = append(ids, b...)
@@ -133,7 +145,13 @@ func deliver(sp Spec, dir string) (ids []int, batches []int, hasBatches bool, co
 			problem = fmt.Sprintf("%d triangles on the channel are not among those written", bad)
 		}
 	case "direct2":
-		bs, bad := pipe.Direct2(nil, &pipe.Script2{Producers: sp.Producers})
+		var bs [][]int
+		var bad int
+		if sp.Reuse == "" {
+			bs, bad = pipe.Direct2(nil, render2(sp))
+		} else {
+			bs, bad = directLate2(render2(sp))
+		}
 		for _, b := range bs {
 			batches = append(batches, len(b))
 			ids = append(ids, b...)
@@ -143,7 +161,7 @@ func deliver(sp Spec, dir string) (ids []int, batches []int, hasBatches bool, co
 			problem = fmt.Sprintf("%d lines on the channel are not among those written", bad)
 		}
 	case "tri":
-		ts := render.ToTriangles(nil, &pipe.Script3{Producers: sp.Producers})
+		ts := render.ToTriangles(nil, render3(sp))
 		for _, t := range ts {
 			if t == nil { // a racing Write can leave a hole in a shared backing array: not among those written
 				ids = append(ids, -1)
@@ -156,7 +174,7 @@ func deliver(sp Spec, dir string) (ids []int, batches []int, hasBatches bool, co
 			ids = append(ids, id)
 		}
 	case "stl":
-		render.ToSTL(nil, path, &pipe.Script3{Producers: sp.Producers})
+		render.ToSTL(nil, path, render3(sp))
 		var c uint32
 		var size int64
 		ids, c, size, err = pipe.DecodeSTL(path)
@@ -165,13 +183,13 @@ func deliver(sp Spec, dir string) (ids []int, batches []int, hasBatches bool, co
 			problem = fmt.Sprintf("STL header says %d triangles but the file holds %d bytes = %d records", c, size, (size-84)/50)
 		}
 	case "3mf":
-		render.To3MF(nil, path, &pipe.Script3{Producers: sp.Producers})
+		render.To3MF(nil, path, render3(sp))
 		ids, err = pipe.Decode3MF(path)
 	case "dxf":
-		render.ToDXF(nil, path, &pipe.Script2{Producers: sp.Producers})
+		render.ToDXF(nil, path, render2(sp))
 		ids, err = pipe.DecodeDXF(path)
 	case "svg":
-		render.ToSVG(nil, path, &pipe.Script2{Producers: sp.Producers})
+		render.ToSVG(nil, path, render2(sp))
 		var all []int
 		for p, ws := range sp.Producers {
 			n := 0
